@@ -253,7 +253,7 @@ func cmdCheck(args []string) int {
 				if len(g.fails) > 0 || len(g.insts) == 0 {
 					continue
 				}
-				o := g.insts[len(g.insts)-1]
+				o := g.insts[0]
 				if o.Cover || o.smtHyps == "" || strings.Contains(o.Name, "safety.panic(") {
 					continue
 				}
